@@ -248,7 +248,7 @@ struct Exec {
             int e = errno;
             if (sc.tp == BTLS) {
                 p_refused = rc < 0 && e == EAGAIN && ready_P;
-                if (p_refused) { p_ref_tag = tag; p_ref_len = len; p2t.pending.assign((const char *)b.data(), len); }
+                if (p_refused) { p_ref_tag = tag; p_ref_len = len; size_t mv = std::min<size_t>(p2t.moved, len); p2t.pending.assign((const char *)b.data() + mv, len - mv); }
                 else if (rc > 0) p2t.pending.clear();
             }
             c.log("P xcm_send(%u) -> %d %s", len, rc, rc < 0 ? errname(e) : "");
@@ -479,7 +479,7 @@ struct Exec {
             e = errno;
             if (sc.tp == BTLS) {
                 t_refused = rc < 0 && e == EAGAIN && ready_T;
-                if (t_refused) { t_ref_tag = tag; t_ref_len = len; t2p.pending.assign((const char *)buf, len); }
+                if (t_refused) { t_ref_tag = tag; t_ref_len = len; size_t mv = std::min<size_t>(t2p.moved, len); t2p.pending.assign((const char *)buf + mv, len - mv); }
                 else if (rc > 0) t2p.pending.clear(); // a retry that fails may still have emitted the pending record
             }
         } else if (kind == OP_RECV) {
